@@ -69,12 +69,10 @@ func (c *Ctx) preamble() string {
 			chain = fmt.Sprintf("(ite (= k %d) ((_ extract 7 0) (bvlshr v (_ bv%d 64))) %s)", k, 7*k, chain)
 		}
 		sb.WriteString("(define-fun VarintByte ((v (_ BitVec 64)) (k Int)) (_ BitVec 8) (let ((sh " + chain + ")) (ite (< (+ k 1) (VarintLen v)) (bvor (bvand sh #x7f) #x80) (bvand sh #x7f))))\n")
-		// Int-domain twin for lengths: bytes of the varint of a non-negative Int e
-		chainI := "(mod e 128)"
-		for k := 9; k >= 1; k-- {
-			chainI = fmt.Sprintf("(ite (= k %d) (mod (div e %s) 128) %s)", k, pow(7*k), chainI)
-		}
-		sb.WriteString("(define-fun VarintByteI ((e Int) (k Int)) (_ BitVec 8) (let ((b " + chainI + ")) ((_ int2bv 8) (ite (< (+ k 1) (VarintLenI e)) (+ b 128) b))))\n")
+		// Int-domain twin for lengths (k-th byte of the minimal varint of a non-negative Int e). It is kept uninterpreted:
+		// obligations only need that equal arguments give equal bytes; its agreement with VarintByte on int2bv(e) is
+		// the trusted arithmetic bridge of DESIGN.md §9.6 (int2bv is never emitted).
+		sb.WriteString("(declare-fun VarintByteI (Int Int) (_ BitVec 8))\n")
 		for _, w := range []int{8, 16, 32, 64} {
 			sb.WriteString(fmt.Sprintf("(define-fun sbv2int%d ((x (_ BitVec %d))) Int (ite (bvslt x (_ bv0 %d)) (- (bv2nat x) %s) (bv2nat x)))\n", w, w, w, pow(w)))
 		}
